@@ -16,6 +16,8 @@
 //! or `baddoc` / `badinput`.
 //!
 //! node  = kind;id;key;parent;children;attrs;nss;name;data          (lists joined by '.')
+//!         parent = parent_node(); for an attribute (whose parent_node() is None by DOM Level 1)
+//!         the element that lists it when `specified()` says it has an owner element
 //! name  = `!` (none) | `E` (error) | local/prefix/uri   (prefix, uri: `~` when None)
 //! data  = `E` (error) | `~` (computed from the children: element, document) | string
 //! value = `ns:i.j.k` (table indices; `z<kind>:<name>:<data>` for nodes whose id is 0)
@@ -96,7 +98,17 @@ impl Table {
             }
         }
         if let Some(attrs) = n.attributes() {
-            let v: Vec<usize> = attrs.iter().map(|a| self.add(a.as_node())).collect();
+            let mut v = vec![];
+            for a in attrs.iter() {
+                let k = self.add(a.as_node());
+                // the element that lists a SPECIFIED attribute is its owner element (what the
+                // evaluator takes as the parent of the attribute node); a DTD-default attribute
+                // reports no owner (`specified()` is `owner_element().is_ok()`)
+                if xml_dom::Attr::specified(&a) {
+                    self.rows[k].parent = Some(i);
+                }
+                v.push(k);
+            }
             self.rows[i].attrs = v;
         }
         let ch: Vec<XmlNode> = n.child_nodes().iter().collect();
@@ -114,8 +126,10 @@ impl Table {
         // parents (a parent that the walk did not reach is appended and walked too)
         let mut k = 0;
         while k < t.rows.len() {
-            let p = t.rows[k].node.parent_node();
-            t.rows[k].parent = p.map(|p| t.add(p));
+            if !matches!(t.rows[k].node, XmlNode::Attribute(_)) {
+                let p = t.rows[k].node.parent_node();
+                t.rows[k].parent = p.map(|p| t.add(p));
+            }
             k += 1;
         }
         t
